@@ -122,7 +122,7 @@ def make_input(d, desc):
     from optimum.quanto import absmax_scale
     from optimum.quanto.tensor import quantize_activation
 
-    shape = tuple(desc.get("lead", [2])) + tuple(d.in_shape)
+    shape = tuple(desc.get("lead", [2])) + tuple(desc.get("feat") or d.in_shape)
     x = archs.gen_payload(shape, DTYPES[d.dtype], desc["seed"], desc.get("cls", "noise"), desc.get("mag", 1.0))
     if desc.get("strided"):
         base = torch.zeros(shape[:-1] + (shape[-1] * 2,), dtype=x.dtype)
@@ -522,7 +522,8 @@ def check_ema(w, d, pre, aborted, p):
                 if now_out != old_out:
                     st["out"] = True
                 continue
-            if now_in != old_in or now_out != old_out:
+            same = lambda a, b: a == b or (a != a and b != b)  # NaN scales (0/0 on all-zero activations) stay NaN
+            if not same(now_in, old_in) or not same(now_out, old_out):
                 w.violate("C12", "ema", "forward", {"which": "untouched", "cause": "module_not_run_but_scale_changed"}, f"{name}: scales changed without the module being run", p)
             continue
         w.judged("C12")
@@ -674,9 +675,17 @@ def do_forward(w, d, op, p):
     d.train_mode = False
     out = None
     exc = None
+    target = d.model
+    if op.get("sub") is not None:
+        # only a part of the model is run (its tail, say), on an input of that part's own shape
+        try:
+            target = d.model.get_submodule(op["sub"])
+            w.probe("submodule_run_on_its_own")
+        except AttributeError:
+            return "skipped"
     try:
         with grad_ctx(op.get("grad", "no_grad")), inj:
-            out = d.model(x)
+            out = target(x)
     except (InjectedFault, InjectedInterrupt) as e:
         exc = e
     except Exception as e:
@@ -727,7 +736,7 @@ def do_forward(w, d, op, p):
             if pre_scales and float(m.output_scale) != pre_scales[n][1]:
                 st["out"] = True
     # ---- memo
-    if exc is None and depth0:
+    if exc is None and depth0 and op.get("sub") is None:
         memo_check(w, d, key, out, p)
     # ---- C13 read-only inference
     if c13:
@@ -1345,11 +1354,23 @@ def do_load(w, op, p):
         w.probe("load_into_existing_target")
         target = "existing"
         base_sig["target"] = target
+    elif target == "meta_assign":
+        # the low-memory reload flow: the skeleton is created and quantized on the meta device and every tensor is
+        # then *assigned* from the state_dict
+        with torch.device("meta"):
+            model = archs.build(rec["arch"], DTYPES[rec["dtype"]])
+        model.eval()
     else:
         model = build_model(rec["arch"], rec["dtype"], op.get("init", 1), rec["wcls"])
     try:
         if into is not None:
             model.load_state_dict(sd, assign=assign)
+        elif target == "meta_assign":
+            kwargs = {"weights": QT(q.get("weights")), "activations": QT(q.get("activations"))}
+            if q.get("filter") is not None:
+                kwargs["modules"] = [model.get_submodule(x) for x in q["filter"]]
+            quantize(model, **kwargs)
+            model.load_state_dict(sd, assign=True)
         elif target == "requantize":
             requantize(model, sd)
         else:
@@ -1386,7 +1407,7 @@ def do_load(w, op, p):
     n.memo = dict(rec["memo"]) if w.focus("C10") else {}
     n.oplog = (list(rec["oplog"]) + ["load:" + target] + (["restart"] if restart else [])) if w.focus("C10") else []
     n.taint = rec.get("taint")
-    n.origin = {"default": "loaded-default", "same": "loaded-same", "requantize": "requantized", "existing": "reloaded"}[target]
+    n.origin = {"default": "loaded-default", "same": "loaded-same", "requantize": "requantized", "existing": "reloaded", "meta_assign": "loaded-meta-assign"}[target]
     n.frozen = rec["frozen"]
     n.ema = copy.deepcopy(rec["ema"])
     n.calibrated = rec["calibrated"]
